@@ -103,11 +103,17 @@ func matchNone(not bool) bson.M {
 	return bson.M{"_id": bson.M{"$exists": false}}
 }
 
+// convertPath gives the field of the pipeline document a has-expression key addresses: a key in
+// the namespace of a mark ("$a.name") addresses the document kept under "marks.a", like distinct
 func convertPath(key string) string {
+	namespace := jsonpath.GetNamespace(key)
 	key = jsonpath.GetJSONPath(key)
 	key = strings.TrimPrefix(key, "$.")
 	if key == "gid" {
 		key = "_id"
+	}
+	if namespace != jsonpath.Current {
+		key = "marks." + namespace + "." + key
 	}
 	return key
 }
